@@ -421,7 +421,19 @@ func (e *escaper) escapeBranch(c context, n *parse.BranchNode, nodeName string) 
 		// The "true" branch of a "range" node can execute multiple times.
 		// We check that executing n.List once results in the same context
 		// as executing n.List twice.
-		c1, _ := e.escapeListConditionally(c0, n.List, nil)
+		var changed parse.Node
+		c1, _ := e.escapeListConditionally(c0, n.List, func(e1 *escaper, _ context) bool {
+			// The edits of the second pass are dropped, so they must be the edits of the
+			// first pass: an action cannot be sanitized for its first iteration only.
+			changed = e.differentlyEdited(e1, n.List)
+			return false
+		})
+		if changed != nil && c1.state != stateError {
+			return context{
+				state: stateError,
+				err:   errorf(ErrRangeLoopReentry, n, n.Line, "on range loop re-entry: %s must be sanitized differently than in the first iteration", changed),
+			}
+		}
 		c0 = join(c0, c1, n, nodeName)
 		if c0.state == stateError {
 			// Make clear that this is a problem on loop re-entry
@@ -436,6 +448,54 @@ func (e *escaper) escapeBranch(c context, n *parse.BranchNode, nodeName string) 
 	}
 	c1 := e.escapeList(c, n.ElseList)
 	return join(c0, c1, n, nodeName)
+}
+
+// differentlyEdited returns a node of list for which e1 has recorded another edit than e,
+// or nil if there is none.
+func (e *escaper) differentlyEdited(e1 *escaper, list *parse.ListNode) parse.Node {
+	if list == nil {
+		return nil
+	}
+	for _, m := range list.Nodes {
+		switch m := m.(type) {
+		case *parse.ActionNode:
+			a, b := e.actionNodeEdits[m], e1.actionNodeEdits[m]
+			if len(a) != len(b) {
+				return m
+			}
+			for i := range a {
+				if a[i] != b[i] {
+					return m
+				}
+			}
+		case *parse.TemplateNode:
+			if e.templateNodeEdits[m] != e1.templateNodeEdits[m] {
+				return m
+			}
+		case *parse.IfNode:
+			if d := e.differentlyEdited(e1, m.List); d != nil {
+				return d
+			}
+			if d := e.differentlyEdited(e1, m.ElseList); d != nil {
+				return d
+			}
+		case *parse.RangeNode:
+			if d := e.differentlyEdited(e1, m.List); d != nil {
+				return d
+			}
+			if d := e.differentlyEdited(e1, m.ElseList); d != nil {
+				return d
+			}
+		case *parse.WithNode:
+			if d := e.differentlyEdited(e1, m.List); d != nil {
+				return d
+			}
+			if d := e.differentlyEdited(e1, m.ElseList); d != nil {
+				return d
+			}
+		}
+	}
+	return nil
 }
 
 // escapeList escapes a list template node.
